@@ -35,8 +35,9 @@ type verifC06Obs struct {
 type verifC06Query struct {
 	Name string
 	Fam  string
+	Arg  string // first argument (key, prefix, node, ...)
 	KV   bool   // index may legitimately fall when tombstones are reaped
-	Gw   string // "" or the kind of gateway link the result depends on: "terminating", "ingress", "any"
+	Gw   string // set for the lookups whose index comes from serviceGatewayNodes: kind of gateway link ("terminating", "ingress")
 	Svc  string // service the gateway-linked query is about ("" = all)
 	Run  func(s *state.Store, ws memdb.WatchSet) (verifC06Obs, error)
 }
@@ -73,7 +74,7 @@ var verifC06DefaultEM = structs.DefaultEnterpriseMetaInDefaultPartition()
 func verifC06Panel() []*verifC06Query {
 	var qs []*verifC06Query
 	add := func(fam, arg string, run func(s *state.Store, ws memdb.WatchSet) (verifC06Obs, error)) *verifC06Query {
-		q := &verifC06Query{Name: fam + "(" + arg + ")", Fam: fam, Run: run}
+		q := &verifC06Query{Name: fam + "(" + arg + ")", Fam: fam, Arg: strings.SplitN(arg, ",", 2)[0], Run: run}
 		qs = append(qs, q)
 		return q
 	}
@@ -361,7 +362,7 @@ func verifC06Panel() []*verifC06Query {
 			idx = verifC06Max(idx, gidx)
 			return obs(idx, verifC06Bag(nodes)+verifC06Bag(imported)+verifC06Bag(gws), nil)
 		})
-		q.Gw = "any"
+		_ = q
 	}
 	for _, da := range []dumpArg{{"", false}, {structs.ServiceKindTypical, true}} {
 		da := da
@@ -381,7 +382,7 @@ func verifC06Panel() []*verifC06Query {
 			idx, gss, err := s.GatewayServices(ws, gw, em())
 			return obs(idx, verifC06Bag(gss), err)
 		})
-		q.Gw = kind
+		_, _ = q, kind // index = gateway-services table index: not subject to the gateway-link finding
 		q = add("GatewayServiceDump", gw, func(s *state.Store, ws memdb.WatchSet) (verifC06Obs, error) {
 			// Internal.GatewayServiceDump
 			maxIdx, gss, err := s.GatewayServices(ws, gw, em())
@@ -404,7 +405,6 @@ func verifC06Panel() []*verifC06Query {
 			}
 			return obs(maxIdx, verifC06Bag(result), nil)
 		})
-		q.Gw = kind
 	}
 	for _, svc := range []string{"web", "db"} {
 		svc := svc
@@ -428,7 +428,7 @@ func verifC06Panel() []*verifC06Query {
 				",upsrc=" + vs.CanonJSON(topo.UpstreamSources) + ",downsrc=" + vs.CanonJSON(topo.DownstreamSources)
 			return obs(idx, r, nil)
 		})
-		q.Gw, q.Svc = "any", svc
+		q.Svc = svc
 	}
 
 	// ---- config entries (config_endpoint.go): store index verbatim
